@@ -157,6 +157,24 @@ def main():
         for r in bad:
             print("  ", r["id"], r["verdict"], json.dumps(r["noisy"])[:600])
         sys.exit(1 if bad else 0)
+    elif cmd == "tier":
+        # tools/par_try.py tier quick|thorough [ids...]: the unchanged HEAD in a scratch worktree (worker 9),
+        # so that it can run while /repo has a seed applied; own thread count, the tier's own wall caps
+        tier, ids = rest[0], rest[1:] or ALL
+        w = setup(9)
+        env = env_of(w)
+        env["VERIF_THREADS"] = os.environ.get("PT_THREADS", "8")
+        del env["VERIF_WALL_CAP_S"]
+        bad = 0
+        for c in ids:
+            t0 = time.time()
+            rc, o = sh(f"/verif/check {c} --tier {tier}", env=env, timeout=4 * 3600, cwd="/verif")
+            last = o.strip().splitlines()[-1][:220] if o.strip() else ""
+            print(c, f"rc={rc}", f"{time.time() - t0:.0f}s", sum(l.startswith("VIOLATION") for l in o.splitlines()), last, flush=True)
+            if rc != 0:
+                bad += 1
+                open(f"{PT}/tier-{tier}-{c}.log", "w").write(o)
+        sys.exit(1 if bad else 0)
     elif cmd == "clean":
         for d in sorted(os.listdir(PT)):
             if re.match(r"w\d+$", d):
